@@ -94,6 +94,10 @@ class FV:
                     isinstance(x, ast.Constant) and isinstance(x.value, (str, int, float)) and not isinstance(x.value, bool) for x in cval.elts):
                 # a small literal collection of constants (the set of accepted mode names / scheme numbers)
                 self.res.module_consts[cname] = cval
+            elif isinstance(cval, ast.Dict) and cval.keys and len(cval.keys) <= 12 and all(
+                    isinstance(x, ast.Constant) and isinstance(x.value, (str, int, float)) and not isinstance(x.value, bool) for x in list(cval.keys) + list(cval.values)):
+                # a small literal lookup table (name -> code)
+                self.res.module_consts[cname] = cval
         for n in self.cfg.nodes:
             for r in node_roots(n):
                 for sub in own_walk(r):
@@ -175,6 +179,12 @@ class FV:
             if recv is not None:
                 mapping[pos[0]] = recv
             pos = pos[1:]
+        if len(resolved_call.args) == 1 and isinstance(resolved_call.args[0], ast.Starred) and not resolved_call.keywords and pos and not a.vararg \
+                and all(g.param_default(p_) is None for p_ in pos):
+            # f(*pair) with f(r, c): the parameters are the components of the unpacked argument
+            for i, p_ in enumerate(pos):
+                mapping[p_] = sym("unpack", resolved_call.args[0].value, ast.Constant(value=i))
+            return mapping
         for i, arg in enumerate(resolved_call.args):
             if isinstance(arg, ast.Starred) or i >= len(pos):
                 return None
@@ -316,7 +326,7 @@ class FV:
             defs = sorted(self.cfg.reaching()[at].get(expr.id, ()))
             simple = [d for d in defs if self.cfg.nodes[d].kind == "stmt" and isinstance(self.cfg.nodes[d].ast, ast.Assign)
                       and len(self.cfg.nodes[d].ast.targets) == 1 and isinstance(self.cfg.nodes[d].ast.targets[0], ast.Name)]
-            if defs and len(simple) == len(defs) and (len(defs) > 1 or isinstance(self.cfg.nodes[defs[0]].ast.value, (ast.IfExp, ast.Call, ast.Name))):
+            if defs and len(simple) == len(defs) and (len(defs) > 1 or isinstance(self.cfg.nodes[defs[0]].ast.value, (ast.IfExp, ast.Call, ast.Name, ast.Subscript, ast.Attribute, ast.BinOp))):
                 out = []
                 for d in defs:
                     here = [(r, p) for r, p, br in self.atoms_at(d)]
@@ -390,6 +400,39 @@ class FV:
     def _split_on_locals(self, expr: ast.AST, at: int, bound: Dict[str, ast.AST], depth: int):
         if not bound and depth <= 2:
             expanded = self._expand_single_defs(expr, at)
+            # a conditional expression inside the compound expression (directly or through a single-definition local such as
+            # `stride = a if trough else b`): split on it
+            inner_if = None
+            for s_ in own_walk(expanded):
+                if isinstance(s_, ast.IfExp) and s_ is not expanded:
+                    inner_if = s_
+                    break
+            if inner_if is not None and not any(isinstance(s_, (ast.Lambda, ast.ListComp, ast.SetComp, ast.DictComp, ast.GeneratorExp)) for s_ in own_walk(expanded)):
+                out = []
+                rt = self.res.resolve(inner_if.test, at)
+                for branch, pol in ((inner_if.body, True), (inner_if.orelse, False)):
+                    class R(ast.NodeTransformer):
+                        def visit(s2, n):
+                            if n is inner_if:
+                                return copy.deepcopy(branch)
+                            return ast.NodeTransformer.visit(s2, n)
+
+                    # deepcopy loses node identity: rebuild by structural replacement instead
+                    def rebuild(n):
+                        if n is inner_if:
+                            return copy.deepcopy(branch)
+                        if isinstance(n, list):
+                            return [rebuild(x) for x in n]
+                        if not isinstance(n, ast.AST):
+                            return n
+                        return type(n)(**{f_: rebuild(getattr(n, f_, None)) for f_ in n._fields})
+
+                    variant = rebuild(expanded)
+                    ast.fix_missing_locations(ast.copy_location(variant, expr)) if hasattr(expr, "lineno") else None
+                    atom = canonical_atom(rt, pol)
+                    for conds, val in self._split_on_locals(variant, at, {}, depth + 1):
+                        out.append(([atom] + conds, val))
+                return out
             if any(isinstance(s_, ast.Name) and isinstance(s_.ctx, ast.Load) and len(self.cfg.reaching()[at].get(s_.id, ())) > 1 for s_ in own_walk(expanded)) and not any(
                     isinstance(s_, ast.Name) and isinstance(s_.ctx, ast.Load) and len(self.cfg.reaching()[at].get(s_.id, ())) > 1 for s_ in own_walk(expr)):
                 expr = expanded
